@@ -40,6 +40,7 @@ import CoreDhcp.Props.GenSetups
 import CoreDhcp.Props.GenStart
 import CoreDhcp.Props.GenStorage
 import CoreDhcp.Props.GenEthernet
+import CoreDhcp.Props.GenServeLoop
 open CoreDhcp
 #print axioms C20_offset_exact
 #print axioms C20_offset_symm
@@ -381,3 +382,20 @@ open CoreDhcp
 #print axioms GEN_eth_frame
 #print axioms GEN_eth_payload_probes
 #print axioms GEN_eth_payload_not_toBytes
+#print axioms GEN_serve_pool_new
+#print axioms GEN_serve_iter6_eq
+#print axioms GEN_serve_iter4_eq
+#print axioms GEN_serve_head6_eq
+#print axioms GEN_serve_head4_eq
+#print axioms GEN_serve_code_eq
+#print axioms SERVE_reads_full_buffer
+#print axioms SERVE_spawn_own_values
+#print axioms SERVE_spawn_own_values_run
+#print axioms SERVE_one_spawn_per_datagram
+#print axioms SERVE_one_spawn_per_datagram_run
+#print axioms SERVE_buffer_back_once
+#print axioms SERVE_buffer_back_once_gen
+#print axioms SERVE_no_two_owners
+#print axioms SERVE_no_two_owners_gen
+#print axioms SERVE_no_two_owners_apart
+#print axioms SERVE_read_into_unshared
